@@ -5,7 +5,7 @@ From FRP Require Export Corr.Common Model.SrvRes Model.ConnWrap.
 Open Scope Z_scope.
 
 (* ---------- observation after a step ---------- *)
-(* ob_sizes     the fifteen table sizes of SrvRes.sizes, read through the //go:build verif accessors
+(* ob_sizes     the sixteen table sizes of SrvRes.sizes, read through the //go:build verif accessors
    ob_tcp/udp   used ports of the two managers (sorted)
    ob_names     the global name table (sorted)
    ob_tbusy/ubusy  ports of the allowed range that cannot be bound right now (OS probe by the harness) *)
